@@ -253,6 +253,9 @@ def run_thresholds(inst, variant=0):
                 # error-rate ranges of the bootstrap resamples that follow the best fit
                 out['bs_bounds'] = [[min(c['xdata'][0]), max(c['xdata'][0])] for c in calls[k + 1:]]
                 out['bs_starts'] = [c['p0'][0] if c['p0'] else float('nan') for c in calls[k + 1:]]
+                out['first_p0'] = calls[k]['p0']            # start vector of the best fit as curve_fit received it
+            out['p_th_nearest'] = float(row['p_th_nearest'])
+            out['p_th_sd'] = float(row['p_th_sd'])
     except Exception as e:  # noqa: BLE001
         out = {'error': f'EXC:{type(e).__name__}:{str(e)[:120]}'}
     finally:
@@ -413,7 +416,32 @@ def correspondence(ctx):
             s.add(f"fssreported {fr(out['raw_opt'][0])} {bounds} {fr(fss[0])} {starts}", 'ok ok', desc,
                   tag='reported-vs-optimiser')
         s.add(f'fssrecovered {fr(inst["pth"])} {fr(recovery_tol(out))} ' + toks, 'recovered', desc, tag='recovery')
+        # p_th_fss_se is the population standard deviation of the bootstrap column
+        if out['bs_col'] and not any(math.isnan(x) for x in out['bs_col']):
+            s.add(f"winse {col} {fr(out['se'])}", 'ok', desc, tag='p_th_fss_se')
+        # which rows the first fit saw and where it started (default window): all rows, p0 = [p_th_nearest, 2, f_0, 1, 1]
+        if out.get('first_p0'):
+            trows = ';'.join(f'0:{d}:{2 * d * d}:1:{d}:{fr(p)}:{fr(f)}' for (d, p, f, nt, nf) in out['points'])
+            s.add(f"winfit {fr(out['p_left'])} {fr(out['p_right'])} {fr(out['p_th_nearest'])} {trows} "
+                  f"{out['n_trunc']} {fr(out['first_p0'][0])} {fr(out['first_p0'][2])}", 'ok ok ok', desc,
+                  tag='first-fit-start')
+            s.add(f'winnearest {trows}', str(Fraction(out['p_th_nearest'])), desc, tag='p_th_nearest-of-real-data')
+        # TEST of the optimiser's contract on the real numbers: the best fit is at least as good as the planted
+        # parameters (cost compared exactly by the model; each side with its own scale d**nu).  Not asked when the
+        # optimiser ended outside the data range (local minimum, see EXPLANATION).
+        raw = out.get('raw_opt')
+        if raw and out['p_left'] <= raw[0] <= out['p_right'] and not any(math.isnan(x) for x in raw):
+            def scaled(nu):
+                return ';'.join(f'{fr(p)},{fr(math.pow(d, nu))},{fr(f)}' for (d, p, f, nt, nf) in out['points'])
+            s.add(f"fsscostle {fr(raw[0])} {fr(raw[2])} {fr(raw[3])} {fr(raw[4])} {scaled(raw[1])} "
+                  f"{fr(inst['pth'])} {fr(inst['A'])} {fr(inst['B'])} {fr(inst['C'])} {scaled(inst['nu'])} 1 1/1000000000000000",
+                  'le', desc, tag='optimiser-vs-planted-cost')
     streams.append(s.run())
+    # --- which rows the fit sees and where it starts: get_p_th_nearest, get_p_th_sd_interp, the window branches
+    #     of calculate_thresholds, apply_overrides (harness/props/c16_window.py)
+    from harness.props import c16_window
+    streams.append(c16_window.stream_helpers(ctx))
+    streams.append(c16_window.stream_pipeline(ctx))
     return streams
 
 
@@ -485,6 +513,12 @@ def check_case(case):
             if (out['p_left'], out['p_right']) != (min(inst['ps']), max(inst['ps'])):
                 checks.append(('range', f"p_left/p_right={out['p_left']},{out['p_right']} data "
                                         f"{min(inst['ps'])},{max(inst['ps'])}"))
+            p0 = out.get('first_p0')
+            if p0 is not None and not (out['p_left'] <= p0[0] <= out['p_right']):
+                checks.append(('start-inside-range', f"the first fit starts at p_th={p0[0]}, data range "
+                                                     f"[{out['p_left']}, {out['p_right']}]"))
+            if not (out['p_left'] <= out['p_th_nearest'] <= out['p_right']):
+                checks.append(('start-inside-range', f"p_th_nearest={out['p_th_nearest']} outside the data range"))
             if out['n_trunc'] != len(inst['ds']) * len(inst['ps']):
                 checks.append(('rows-used', f"{out['n_trunc']} rows used of {len(inst['ds']) * len(inst['ps'])}"))
             if abs(out['p_th_fss'] - inst['pth']) > recovery_tol(out):
@@ -550,6 +584,9 @@ def check_case(case):
                 elif abs(opt[0] - base[0]) > 1e-6 * abs(base[0]):
                     return f'fitted p_th depends on the row order: {base[0]!r} vs {opt[0]!r}'
             return None
+        if kind in ('nearest', 'sd-interp', 'window'):
+            from harness.props import c16_window
+            return c16_window.check_window_case(case)
     except Exception as e:  # noqa: BLE001
         case['_check'] = 'harness'
         return f'raised {type(e).__name__}: {e}'
@@ -557,6 +594,9 @@ def check_case(case):
 
 
 def fail_key(case):
+    if case['class'] in ('nearest', 'sd-interp', 'window'):
+        from harness.props import c16_window
+        return c16_window.window_fail_key(case)
     k = {'class': case['class']}
     if '_check' in case:
         k['check'] = case['_check']
@@ -585,6 +625,8 @@ def oracle_cases(ctx, deep):
         cases.append({'class': 'planted', 'instance': inst, 'order': bool(deep or j < 2)})
     for inst in insts[:3]:
         cases.append({'class': 'row-order', 'instance': inst})
+    from harness.props import c16_window
+    cases += c16_window.window_oracle_cases(ctx, deep)
     return cases
 
 
